@@ -41,11 +41,7 @@ func (r *Run) oneofWrappers(pkgRel, iface string) []*types.TypeName {
 func (r *Run) exhaustiveTypeSwitch(f *prog.FuncInfo, wrappers []*types.TypeName, what string) int {
 	info := f.Pkg.TypesInfo
 	n := 0
-	inspect(f.Decl.Body, func(nd ast.Node) bool {
-		ts, ok := nd.(*ast.TypeSwitchStmt)
-		if !ok {
-			return true
-		}
+	for _, ts := range typeSwitches(info, f.Decl.Body) {
 		covered := map[*types.TypeName]bool{}
 		any := false
 		for _, cl := range ts.Body.List {
@@ -65,7 +61,7 @@ func (r *Run) exhaustiveTypeSwitch(f *prog.FuncInfo, wrappers []*types.TypeName,
 			}
 		}
 		if !any {
-			return true
+			continue
 		}
 		n++
 		r.Site(ts.Pos(), f.Name()+": type switch over "+what)
@@ -74,8 +70,7 @@ func (r *Run) exhaustiveTypeSwitch(f *prog.FuncInfo, wrappers []*types.TypeName,
 				r.Fail(f.Name()+":switch-missing:"+w.Name(), ts.Pos(), nil, "the type switch over %s in %s has no case for %s: such events are dropped or rejected", what, f.Name(), w.Name())
 			}
 		}
-		return true
-	})
+	}
 	return n
 }
 
